@@ -501,3 +501,14 @@ pub proof fn lemma_side_excl<P: Prefix, T>(t: Seq<Node<P, T>>, loc: ViewLoc<P>, 
         assert(in_view(t, loc, i) && spre(x, kb(t, i)) && kb(t, i)[x.len() as int] == s);
     }
 }
+
+/// [C11] in a canonical trie every view other than the whole-map view contains at least one stored entry
+pub proof fn lemma_view_nonempty<P: Prefix, T>(t: Seq<Node<P, T>>, loc: ViewLoc<P>) -> (n: int)
+    requires v_ok(t, loc), tcanon(t, tlive(t)), vidx(loc) != 0
+    ensures in_view(t, loc, n), t[n].value.is_some()
+{
+    lemma_twf_live(t);
+    let m = lemma_stored_below(t, tlive(t), vidx(loc));
+    lemma_view_region(t, loc, m);
+    m
+}
